@@ -83,6 +83,20 @@ def run(ctx):
             samples.append(rep)
         if len(ctx.violations) > 30:
             break
+    # relation (a) on the bound(...) family of C04: type-, variant- and field-level #[derive_ex(Trait(bound(..)), bound(..))] and helper bounds
+    import boundfam as BF
+    for is_enum in (False, True):
+        for trait in (BF.ENUM_TRAITS if is_enum else BF.STRUCT_TRAITS):
+            for _ in range(6 if ctx.quick else 120):
+                prog = BF.random_prog(rng, trait, is_enum)
+                item, args = prog.item_text(), prog.macro_args()
+                a_ = impls_of(ex.attr(args, item), True)
+                d_ = impls_of(ex.derive("#[derive_ex(%s)] %s" % (args, item)), False)
+                evals += 2
+                nontriv += 1
+                if a_ is None or a_ != d_:
+                    ctx.violation("B:C15:entry-bounds:%s:%s" % (args, re.sub(r"\s+", " ", item)[:200]), "#[derive(Ex)] and #[derive_ex(..)] generate different impls for an item with nested derive_ex bound arguments",
+                                  {"layer": "B", "item": item, "args": args, "attr": a_, "derive": d_})
     # systematic part of relation (c): every comparison trait, alone vs. with every co-derived subset of the other comparison traits,
     # on fields carrying only helper attributes that belong to that trait
     import itertools, cmpfam
